@@ -334,6 +334,11 @@ class Interp:
                     # scalar read evaluated to a value: need the reference
                     if isinstance(a, LoopIR.Read) and isinstance(env.get(a.name), View):
                         val = env[a.name]
+                    elif isinstance(a, LoopIR.ReadConfig) and isinstance(val, Poly):
+                        # a configuration field passed for a scalar parameter: by value
+                        tmp = Storage(f"{a.config.name()}.{a.field}", 1, "alloc")
+                        tmp.cells[0] = val
+                        val = View(tmp, 0, [], [])
                     else:
                         raise InterpAbort("numeric call argument is not a buffer")
                 if ty.is_tensor_or_window():
@@ -499,6 +504,8 @@ def run_proc(proc, ctrl, layouts=None, cfg0=None, data=sym_data, monitors=True,
             it.run_block(proc.body, env)
         except InterpAbort as ex:
             res.abort = str(ex)
+        except KeyError as ex:
+            res.abort = f"unbound-variable {ex!r}"
     except InterpAbort as ex:
         raise ValueError("precondition")
     for nm, st in stores:
